@@ -291,7 +291,7 @@ def validate_traces(module, traces, invariants, workdir, batch=12, extra_consts=
 OP = dict(END=0, CR=1, JN=2, TJ=3, DT=4, YD=5, EX=6, RET=7, LK=8, TL=9, UL=10, INC=11, CWAIT=12, CSIG=13, CBC=14,
           BAR=15, JCDEC=16, JCWAIT=17, UCWAIT=18, UCSIG=19, FEWL=20, FEMS=21, ONCE=22, KSET=23, KGET=24,
           SLEEP=25, TLK=26, TJN=27, SETV=28, WAITV=29, NEST=30, PROBE=31, KCREATE=32, KDELETE=33,
-          CANCEL=34, TESTCANCEL=35, BUSY=36, FELK=37, FEUL=38, WAITGE=39, CBCO=40, JCPOKE=41)
+          CANCEL=34, TESTCANCEL=35, BUSY=36, FELK=37, FEUL=38, WAITGE=39, CBCO=40, JCPOKE=41, DEEP=42)
 F_PF, F_DETACH, F_STACK, F_ATTR, F_NULLID, F_DIRTY = 1, 2, 4, 8, 16, 32
 
 
@@ -349,6 +349,12 @@ def gen_core_prog(rng, maxb=8, flagset=(0, 0, 0, F_PF, F_DETACH, F_STACK, F_ATTR
             elif e < 0.6:
                 ops.append((OP['RET'], 3000 + k, 0, 0))
         bodies[k] = ops
+    # a thread created with a custom stack size uses most of that stack (and is suspended there) at some point
+    for k in range(n):
+        for o in bodies[k]:
+            if o[0] == OP['CR'] and (o[2] & F_STACK) and o[3] >= 4 and rng.random() < 0.7:
+                c = o[1]
+                bodies[c].insert(rng.randrange(len(bodies[c]) + 1) if bodies[c] and bodies[c][-1][0] not in (OP['EX'], OP['RET']) else 0, (OP['DEEP'], o[3], rng.choice((0, 2, 3)), 0))
     return bodies
 
 
